@@ -249,3 +249,105 @@ def output_cases(draw, tier):
 
 SUBCHECKS = [Sub("ntriples", lambda tier: nt_cases(tier), run_nt, {"quick": 3000, "thorough": 100000}),
              Sub("output", lambda tier: output_cases(tier), run_output, {"quick": 3000, "thorough": 100000})]
+
+
+# ---------------------------------------------------------------- Turtle / TriG, forward
+NUM_VARIANTS = [("+1", "integer"), ("-0", "integer"), ("007", "integer"), ("-.5", "decimal"), ("+1.50", "decimal"), (".5", "decimal"), ("1e0", "double"),
+                ("1.E-3", "double"), (".1e+2", "double"), ("-1.5E3", "double"), ("1E0", "double"), ("+0.0e0", "double")]
+
+
+def jt(x):
+    """JSON term -> identity tuple"""
+    return key(T(x))
+
+
+@st.composite
+def ttl_nodes(draw, depth, subject=False):
+    k = draw(st.integers(0, 11))
+    if subject:
+        if k <= 6:
+            return ["t", draw(st.one_of(gt.iris(), gt.iris(rich=False)))]
+        if k <= 8:
+            return ["t", draw(gt.bnodes())]
+        if k == 9 and depth > 0:
+            return ["anon", draw(ttl_pol(depth - 1, min_size=0))]
+        if k == 10 and depth > 0:
+            return ["coll", draw(st.lists(ttl_nodes(depth - 1), max_size=3))]
+        return ["t", draw(gt.iris(rich=False))]
+    if k <= 2:
+        return ["t", draw(gt.iris())]
+    if k == 3:
+        return ["t", draw(gt.bnodes())]
+    if k <= 6:
+        return ["t", draw(st.one_of(gt.literals(), gt.falsy_literals()))]
+    if k == 7:
+        tok, dt = draw(st.sampled_from(NUM_VARIANTS))
+        return ["raw", tok, ["l", tok, None, gt.XSD + dt]]
+    if k == 8 and depth > 0:
+        return ["anon", draw(ttl_pol(depth - 1, min_size=0))]
+    if k == 9 and depth > 0:
+        return ["coll", draw(st.lists(ttl_nodes(depth - 1), max_size=3))]
+    return ["t", draw(st.one_of(gt.plain_literals(), gt.iris(rich=False)))]
+
+
+@st.composite
+def ttl_pol(draw, depth, min_size=1):
+    preds = st.one_of(gt.iris(), gt.iris(rich=False), st.just(["u", sx.RDF + "type"]))
+    return draw(st.lists(st.tuples(preds, st.lists(ttl_nodes(depth), min_size=1, max_size=3)).map(list), min_size=min_size, max_size=3))
+
+
+@st.composite
+def ttl_cases(draw, tier):
+    trig = draw(st.booleans())
+    depth = 2
+    stmt = st.tuples(ttl_nodes(depth, subject=True), ttl_pol(depth)).map(list)
+    if trig:
+        names = [None, None, ["u", "http://ex.org/g1"], ["u", "urn:ex:g#2"], ["b", "gb"], ["u", "http://ex.org/a/g"]]
+        blocks = draw(st.lists(st.tuples(st.sampled_from(names), st.lists(stmt, min_size=0, max_size=3)).map(list), min_size=1, max_size=4))
+    else:
+        blocks = [[None, draw(st.lists(stmt, min_size=1, max_size=4))]]
+    modes = ["str"] + draw(st.lists(st.sampled_from(MODES[1:]), min_size=1, max_size=2, unique=True))
+    return {"syntax": "trig" if trig else "turtle", "blocks": blocks, "choices": draw(st.lists(st.integers(0, 999), min_size=60, max_size=120)), "modes": modes}
+
+
+def clean_pol(pl):
+    """(the shrinker may empty an object list)"""
+    return [[p, objs] for p, objs in pl if objs]
+
+
+def ast_node(n):
+    if n[0] == "t":
+        return ("t", jt(n[1]))
+    if n[0] == "raw":
+        return ("raw", n[1], jt(n[2]))  # (the meaning of a numeric token is its RDFLib-normal lexical form: value mapping is C09's subject)
+    if n[0] == "anon":
+        return ("anon", [(jt(p), [ast_node(o) for o in objs]) for p, objs in clean_pol(n[1])])
+    return ("coll", [ast_node(m) for m in n[1]])
+
+
+def run_ttl(case):
+    out = Out()
+    blocks = []
+    for g, stmts in case["blocks"]:
+        sts = []
+        for s, pl in stmts:
+            s2 = ast_node(s)
+            pl2 = [(jt(p), [ast_node(o) for o in objs]) for p, objs in clean_pol(pl)]
+            if not pl2 and not (s2[0] == "anon" and s2[1]):
+                continue
+            sts.append((s2, pl2))
+        blocks.append((jt(g) if g is not None else None, sts))
+    trig = case["syntax"] == "trig"
+    c = sx.Chooser(case["choices"])
+    quads = sx.eval_doc(blocks)
+    doc = sx.TurtleWriter(c, trig=trig).document(blocks)
+    want = quads if trig else {q[:3] for q in quads}
+    res = parse_modes(doc, case["syntax"], trig, case["modes"])
+    if not judge(out, res, want, case["syntax"], doc, c.features, case):
+        return out
+    out.nontrivial = len(c.features) >= 2 and bool(want)
+    out.cls("syntax:" + case["syntax"], *["f:" + f for f in sorted(c.features)], "features:%d" % min(len(c.features), 9))
+    return out
+
+
+SUBCHECKS.append(Sub("turtle", lambda tier: ttl_cases(tier), run_ttl, {"quick": 4000, "thorough": 150000}, weight=2))
